@@ -826,3 +826,139 @@ func TestVerif_C19_GatherPath(t *testing.T) {
 		}
 	})
 }
+
+// TestVerif_C19_MuxHostPath: host rules as the UDP-mux gatherer applies them. The mux listens on one of the
+// interface addresses; the published host candidates must be those the reference gives for (host, that address,
+// the interface carrying it) — interface-scoped rules included.
+func TestVerif_C19_MuxHostPath(t *testing.T) {
+	st := vfNewStats(t)
+	lf := logging.NewDefaultLoggerFactory()
+	lf.DefaultLogLevel = logging.LogLevelDisabled
+	rapid.Check(t, func(rt *rapid.T) {
+		rules := rapid.SliceOfN(c19RuleGen(false), 1, 4).Draw(rt, "rules")
+		for i := range rules {
+			if len(rules[i].External) == 0 {
+				rules[i].External = []string{"203.0.113.200"} // (the option refuses empty External lists)
+			}
+			rules[i].AsCandidateType = CandidateTypeHost
+		}
+		norm := make([]c19Rule, len(rules))
+		for i, r := range rules {
+			norm[i] = r
+			seen := map[string]bool{}
+			norm[i].External = nil
+			for _, e := range r.External {
+				if !seen[e] {
+					seen[e] = true
+					norm[i].External = append(norm[i].External, e)
+				}
+			}
+		}
+		ifaceOf := map[string]string{}
+		var ifaces []fnIface
+		var all []string
+		for k, name := range []string{"eth0", "eth1"} {
+			ifc := fnIface{Name: name, Up: true}
+			for j := 0; j < 2; j++ {
+				a := c19Locals4[(2*k+j)%len(c19Locals4)]
+				ifc.Addrs = append(ifc.Addrs, a)
+				ifaceOf[a] = name
+				all = append(all, a)
+			}
+			ifaces = append(ifaces, ifc)
+		}
+		muxIP := rapid.SampledFrom(all).Draw(rt, "muxAddress")
+		fn := newFakeNet(ifaces)
+		base := newC12Base(muxIP + ":7000")
+		mux := NewUDPMuxDefault(UDPMuxParams{Logger: lf.NewLogger("mux"), UDPConn: base})
+		defer mux.Close() //nolint:errcheck
+		a, err := NewAgentWithOptions(WithNet(fn), WithLoggerFactory(lf), WithMulticastDNSMode(MulticastDNSModeDisabled),
+			WithCandidateTypes([]CandidateType{CandidateTypeHost}), WithNetworkTypes([]NetworkType{NetworkTypeUDP4, NetworkTypeUDP6}),
+			WithUDPMux(mux), WithAddressRewriteRules(c19Plain(rules)...))
+		if err != nil {
+			st.Fail(rt, "C19/validation/option-valid-rejected", "NewAgentWithOptions rejected valid rules: %v — %v", err, rules)
+
+			return
+		}
+		defer func() {
+			done := make(chan struct{})
+			go func() { _ = a.Close(); close(done) }()
+			select {
+			case <-done:
+			case <-time.After(20 * time.Second):
+			}
+		}()
+		complete := make(chan struct{}, 1)
+		_ = a.OnCandidate(func(c Candidate) {
+			if c == nil {
+				select {
+				case complete <- struct{}{}:
+				default:
+				}
+			}
+		})
+		if err := a.GatherCandidates(); err != nil {
+			rt.Fatalf("harness: %v", err)
+		}
+		select {
+		case <-complete:
+		case <-time.After(20 * time.Second):
+			st.Inconclusive()
+			rt.Fatalf("VERIF-INCONCLUSIVE: gathering did not complete")
+		}
+		local, _ := a.GetLocalCandidates()
+		var got []string
+		for _, c := range local {
+			if c.Type() == CandidateTypeHost {
+				got = append(got, c.Address())
+			}
+		}
+		iface := ifaceOf[muxIP]
+		ref := c19Reference(norm, CandidateTypeHost, muxIP, iface)
+		if ref.ambiguous {
+			st.Exclude("externals-all-filtered-by-networks(undocumented)")
+
+			return
+		}
+		want, keep := c19ApplyRef(ref, muxIP)
+		if !keep {
+			want = nil
+		}
+		alt := c19ReferenceD9(norm, CandidateTypeHost, muxIP, iface)
+		wantD9, keepD9 := c19ApplyRef(alt, muxIP)
+		if !keepD9 {
+			wantD9 = nil
+		}
+		sorted := func(ss []string) []string {
+			out := c19Norm(ss)
+			sort.Strings(out)
+			// (one candidate per distinct address: the mux path deduplicates)
+			var u []string
+			for i, s := range out {
+				if i == 0 || out[i-1] != s {
+					u = append(u, s)
+				}
+			}
+
+			return u
+		}
+		scoped := false
+		for _, r := range rules {
+			if r.Iface != "" {
+				scoped = true
+			}
+		}
+		st.Record(vfHash(rules, muxIP), ref.matched && scoped, fmt.Sprintf("rule-matched:%v", ref.matched), fmt.Sprintf("interface-scoped-rule:%v", scoped))
+		if ref.matched && st.WantSample() {
+			st.Sample(func() string { return fmt.Sprintf("rules=%v mux=%s(%s) published=%v", rules, muxIP, iface, got) })
+		}
+		have := sorted(got)
+		switch {
+		case c19Same(have, sorted(want)):
+		case c19Same(have, sorted(wantD9)):
+			st.Fail(rt, c19KnownD9, "UDP mux on %s (%s): published %v, documented precedence gives %v\nrules: %v", muxIP, iface, have, sorted(want), rules)
+		default:
+			st.Fail(rt, "C19/gather/mux-host-address-not-as-documented", "UDP mux on %s (interface %s): published host addresses %v, the rules give %v\nrules: %v", muxIP, iface, have, sorted(want), rules)
+		}
+	})
+}
